@@ -145,7 +145,7 @@ type Monitors struct {
 	resyncs int
 	// ServerName is the network name used as prefix of server-originated lines
 	ServerName string
-	Stats   map[string]int
+	Stats      map[string]int
 }
 
 func NewMonitors() *Monitors {
